@@ -170,6 +170,8 @@ def main():
       model, info = synth.build(scn, args.seed + i)
     except synth.Unrealisable:
       continue
+    if pipeline.has_f15(scn, info["codes"]):
+      continue      # output differs from run to run (known finding F15): interpreter outputs of the two forms cannot be compared
     def bq(model=model, scn=scn, info=info):
       q = quantizer.Quantizer(model)
       pipeline.apply_recipe(q, scn, info)
@@ -186,6 +188,8 @@ def main():
     rnd = __import__("random").Random(args.seed * 31 + i)
     scn_b = dict(scn_a, mode=[[rnd.choice(rgen.kind_modes(o["kind"])) for o in sub["ops"]] for sub in scn_a["subs"]], codes=info["codes"])
     if not numeric_policy_ok(scn_b, info["codes"]) or not numeric_policy_ok(dict(scn_a, codes=info["codes"]), info["codes"]):
+      continue
+    if pipeline.has_f15(scn_b, info["codes"]):
       continue
     def recipe_of(scn, model=model, info=info):
       q = quantizer.Quantizer(model)
